@@ -3,6 +3,8 @@
   Property theorems only; the model is regenerated from /repo on every run.
 -/
 import KsVerif.Api.Progress
+import KsVerif.Sched.Protocols
+import KsVerif.Generated.GenAtomicShapes
 
 namespace KsVerif.Proofs.C20
 open KsVerif.Progress
@@ -76,5 +78,38 @@ theorem c20_conservation (ops : List Op) (hnr : ∀ op ∈ ops, op ≠ .reset) :
 example : run Gen.ReadProgress.init
     [.feed 10, .current, .feed 5, .current, .feed 3, .current] = [10, 5, 3] := by
   rw [c20_progress]; rfl
+
+end KsVerif.Proofs.C20
+
+/-! ## Statistics dumps partition the counted events -/
+
+namespace KsVerif.Proofs.C20
+open KsVerif.Sched
+
+theorem dump_inv (es : List DEvent) : ∀ s : DState,
+    (drun s es).dumps.sum + (drun s es).cell
+      = s.dumps.sum + s.cell + (es.filter (· == .inc)).length := by
+  induction es with
+  | nil => intro s; simp [drun]
+  | cons e es ih =>
+    intro s
+    have := ih (dstep s e)
+    simp only [drun, List.foldl_cons] at *
+    rw [this]
+    cases e <;> simp [dstep, List.filter_cons] <;> omega
+
+/-- **C20 (dumps).** Whatever the interleaving of increments and dumps, and however many of
+    each: the values reported by the dumps plus what is left in the counter equal the number
+    of increments — every increment shows up in exactly one dump or in the residue. -/
+theorem c20_dump_conservation (es : List DEvent) :
+    (drun {} es).dumps.sum + (drun {} es).cell = (es.filter (· == .inc)).length := by
+  have := dump_inv es {}
+  simpa using this
+
+/-- The reset the code performs today is the atomic exchange of the protocol above
+    (regenerated shape, checked on every run). -/
+theorem c20_reset_shape_atomic : isAtomicReset Gen.Shapes.resetUint64 = true := by decide
+
+example : (drun {} [.inc, .inc, .dump, .inc, .dump, .inc]).dumps = [2, 1] := by decide
 
 end KsVerif.Proofs.C20
